@@ -1,5 +1,156 @@
-"""atheris tier of C07/C08 (thorough only) - filled in below."""
+"""atheris (coverage-guided, libFuzzer) tier for C07 and C08 - thorough tier only.
+
+Each shard is a subprocess running props/fuzz_target.py. The oracle sits inside the target; a disagreement is
+appended to a findings file and fuzzing continues (libFuzzer would otherwise stop at the first one). Afterwards every
+finding and every libFuzzer artifact (crash-*, timeout-*) is re-run through the plain replay path of the property and
+reported only if it fails there. If atheris cannot be imported the shard records that and does nothing else."""
+import json
+import os
+import shutil
+import subprocess
+import sys
+import tempfile
+
+from vlib import harness, gen_iso, refcodec
+from vlib.repo import REPO
+
+HERE = os.path.dirname(os.path.abspath(__file__))
+DEPS = os.path.join(os.path.dirname(HERE), '.deps')
 
 
-def tasks(seed):
-    return []
+def have_atheris():
+    if DEPS not in sys.path and os.path.isdir(DEPS):
+        sys.path.append(DEPS)
+    try:
+        import atheris  # noqa: F401
+        return True
+    except Exception:  # noqa
+        return False
+
+
+def seed_corpus(dirname, n=40):
+    """generator-made valid messages, each prefixed with the selector byte the target expects"""
+    import datetime
+    cfg = gen_iso.packaged_config()
+    i = 0
+    for codec_i, codec in enumerate(SELECT_CODECS):
+        for hexbm in (0, 1):
+            msgs = [
+                {'MTI': '1144', 'DE2': '4444555566667777', 'DE3': '123456', 'DE4': 1299, 'DE12': datetime.datetime(2024, 2, 29, 23, 59, 58)},
+                {'MTI': '1240', 'PDS0023': 'NA', 'PDS0148': '9782', 'PDS0165': 'M' + 'x' * 20, 'DE71': 1},
+                {'MTI': '1442', 'DE55': b'\x9f\x26\x08\x01\x02\x03\x04\x05\x06\x07\x08\x82\x02\x18\x00\x5f\x2a\x02\x09\x78',
+                 'DE43': 'SHOP  \\1 MAIN ST\\TOWN\\4000      QLDAUS', 'DE48': '0002003abc0001001Y'},
+                {'MTI': '1644', 'DE72': 'free text ' * 9, 'DE127': 'n', 'DE100': '12345678901'},
+            ]
+            for m in msgs:
+                data = refcodec.encode(cfg, codec, bool(hexbm), m)
+                sel = bytes([(codec_i << 2) | (hexbm << 1) | 0])
+                with open(os.path.join(dirname, 'seed-%03d' % i), 'wb') as f:
+                    f.write(sel + data)
+                i += 1
+                if i >= n:
+                    return i
+    return i
+
+
+SELECT_CODECS = ['latin_1', 'cp500', 'ascii', 'cp1252', 'cp864', 'cp037']
+
+
+def fuzz_shard(ctx, prop, shard, seconds, corpus, mode):
+    if not have_atheris():
+        ctx.note('atheris is not importable: coverage-guided tier skipped')
+        ctx.labels['atheris-skipped'] += 1
+        return
+    work = tempfile.mkdtemp(prefix='cardutil-verif-fuzz-')
+    try:
+        cdir = os.path.join(work, 'corpus')
+        os.makedirs(cdir)
+        if corpus == 'valid':
+            seed_corpus(cdir)
+        findings = os.path.join(work, 'findings.jsonl')
+        stats = os.path.join(work, 'stats.json')
+        env = dict(os.environ, PYTHONPATH=os.pathsep.join([os.path.dirname(HERE), DEPS]), VERIF_REPO=REPO,
+                   FUZZ_FINDINGS=findings, FUZZ_STATS=stats, FUZZ_PROP=prop, FUZZ_MODE=mode, PYTHONDONTWRITEBYTECODE='1')
+        cmd = [sys.executable, os.path.join(HERE, 'fuzz_target.py'), cdir, f'-max_total_time={seconds}', '-timeout=10',
+               f'-seed={harness.derive_seed(ctx.seed, prop, shard) % 2 ** 31 or 1}', f'-artifact_prefix={work}/art-',
+               '-max_len=700', '-print_final_stats=1', '-verbosity=0', '-rss_limit_mb=4096']
+        p = subprocess.run(cmd, env=env, capture_output=True, text=True, timeout=seconds + 300)
+        execs = 0
+        for line in p.stderr.splitlines():
+            if 'stat::number_of_executed_units' in line:
+                execs = int(line.split(':')[-1].strip())
+        st = {}
+        if os.path.exists(stats):
+            with open(stats) as f:
+                st = json.load(f)
+        if not execs:
+            execs = st.get('execs', 0)
+        if execs == 0:
+            raise harness.HarnessError(f'atheris shard produced no executions: rc={p.returncode} {p.stderr[-600:]}')
+        ctx.evaluations += execs
+        ctx.labels[f'atheris-{mode}-executions'] += execs
+        ctx.labels[f'atheris-{mode}-{corpus}-corpus-shards'] += 1
+        ctx.labels['atheris-inputs-past-header'] += st.get('past_header', 0)
+        for d in st.get('nontrivial_digests', []):
+            ctx.nontrivial.add(bytes.fromhex(d))
+        for s in st.get('samples', [])[:2]:
+            ctx.sample({'atheris_input': s, 'mode': mode})
+        # candidates: in-target findings and libFuzzer artifacts; both are confirmed through the plain replay path
+        import importlib
+        mod = importlib.import_module('props.' + prop.lower())
+        cands = []
+        if os.path.exists(findings):
+            with open(findings) as f:
+                for line in f:
+                    cands.append(harness.dec(json.loads(line)))
+        for name in os.listdir(work):
+            if name.startswith('art-'):
+                with open(os.path.join(work, name), 'rb') as f:
+                    raw = f.read()
+                if mode == 'raw' and raw:
+                    cands.append(case_from_bytes(raw))
+        ctx.labels['atheris-candidates'] += len(cands)
+        for case in cands:
+            res = mod.replay(case)
+            if res:
+                ctx.report(res[0], case, res[1] + ' [found by atheris]')
+    finally:
+        shutil.rmtree(work, ignore_errors=True)
+
+
+def case_from_bytes(raw):
+    sel = raw[0]
+    codec = SELECT_CODECS[(sel >> 2) % len(SELECT_CODECS)]
+    hexbm = bool((sel >> 1) & 1)
+    cfgsel = sel & 1
+    return {'entry': 'loads', 'config': None if not cfgsel else ALT_CONFIG, 'codec': codec, 'hex': hexbm, 'data': raw[1:]}
+
+
+ALT_CONFIG = {
+    '2': {'field_type': 'LLVAR', 'field_length': 0, 'field_processor': 'PAN'},
+    '3': {'field_type': 'FIXED', 'field_length': 6, 'field_python_type': 'int'},
+    '4': {'field_type': 'FIXED', 'field_length': 8, 'field_python_type': 'decimal'},
+    '5': {'field_type': 'FIXED', 'field_length': 8, 'field_python_type': 'datetime', 'field_date_format': '%Y%m%d'},
+    '6': {'field_type': 'LLVAR', 'field_length': 0, 'field_python_type': 'int'},
+    '7': {'field_type': 'LLLVAR', 'field_length': 0, 'field_processor': 'PDS'},
+    '8': {'field_type': 'LLVAR', 'field_length': 255, 'field_processor': 'ICC'},
+    '9': {'field_type': 'LLVAR', 'field_length': 0, 'field_processor': 'DE43', 'field_processor_config': gen_iso.PACKAGED_DE43},
+    '64': {'field_type': 'LLLVAR', 'field_length': 0},
+    '65': {'field_type': 'FIXED', 'field_length': 3},
+    '127': {'field_type': 'LLLVAR', 'field_length': 255, 'field_processor': 'ICC'},
+}
+
+
+def tasks(seed, prop='C07'):
+    t = []
+    if prop == 'C07':
+        for shard in range(12):
+            t.append(('fuzz_shard', dict(prop='C07', shard=shard, seconds=90, corpus='valid' if shard % 3 else 'empty', mode='raw')))
+        for shard in range(12, 16):
+            t.append(('fuzz_shard', dict(prop='C07', shard=shard, seconds=90, corpus='empty', mode='hyp')))
+    else:
+        for shard in range(6):
+            t.append(('fuzz_shard', dict(prop='C08', shard=shard, seconds=60, corpus='valid' if shard % 3 else 'empty', mode='raw')))
+        for shard in range(6, 8):
+            t.append(('fuzz_shard', dict(prop='C08', shard=shard, seconds=60, corpus='empty', mode='hyp')))
+    return t
